@@ -65,6 +65,13 @@ func NewCaptivePortal(uri string) (*CaptivePortal, error) {
 		return nil, err
 	}
 
+	// The option must also fit on the wire: a URI accepted above can still be
+	// too long for the option's length field, which would make every router
+	// advertisement carrying it fail to marshal.
+	if _, err := ndp.MarshalMessage(&ndp.RouterAdvertisement{Options: []ndp.Option{cp}}); err != nil {
+		return nil, fmt.Errorf("captive portal URI cannot be encoded: %v", err)
+	}
+
 	return &CaptivePortal{Portal: cp}, nil
 }
 
